@@ -63,7 +63,8 @@ fn main() {
         i += 1;
     }
     silence_panics();
-    let ctx = Ctx { tier, seed, threads };
+    let dim = apply_dim();
+    let ctx = Ctx { tier, seed, threads, dim };
     // leaked: the hang watchdog keeps a reference for the life of the process
     let rep: &'static Report = Box::leak(Box::new(Report::new(&id)));
     {
@@ -101,6 +102,7 @@ fn main() {
         }
         rep.eval(1);
         rep.note("replay", serde_json::json!(p));
+        let _ = &ctx;
     } else {
         dispatch(&id, &ctx, rep);
     }
